@@ -154,6 +154,77 @@ where
     None
 }
 
+/// All messages of a history, one behind the other on ONE source, read back one after the other:
+/// each reader must hand out every value in turn and end exactly at the end of the stream (a
+/// reader that reads ahead, or a message that is not exactly header + datum, displaces the next).
+fn check_stream_generic(schema: &Schema, all: &[Sent]) -> Option<Failure> {
+    if all.len() < 2 {
+        return None;
+    }
+    let stream: Vec<u8> = all.iter().flat_map(|s| s.msg.iter().copied()).collect();
+    let rd = GenericSingleObjectReader::builder().schema(schema.clone()).build().ok()?;
+    for (which, plan) in [("read_value", SourcePlan::perfect()), ("read_value", SourcePlan { chunk: Chunk::Const(3), faults: vec![], eintr_every: 4 })] {
+        let mut src = SimSource::new(&stream, plan);
+        for (i, sent) in all.iter().enumerate() {
+            match guarded(|| rd.read_value(&mut src)) {
+                Ok(Ok(v)) if avro_eq(&v, &sent.value) => {}
+                other => {
+                    return Some(Failure::new(
+                        "stream-does-not-roundtrip",
+                        format!("C18 stream-does-not-roundtrip reader={which}"),
+                        format!("message #{i} of {} read one after the other from one source: {:?} (position {} of {})", all.len(), other.map(|r| r.map(|v| crate::gen::describe_value(&v)).map_err(|e| e.to_string())), src.pos, stream.len()),
+                    ));
+                }
+            }
+        }
+        if src.pos != stream.len() {
+            return Some(Failure::new("stream-does-not-roundtrip", format!("C18 stream-does-not-roundtrip reader={which}"), format!("{} of {} bytes consumed after the last message", src.pos, stream.len())));
+        }
+    }
+    let mut src = SimSource::new(&stream, SourcePlan::perfect());
+    for (i, _) in all.iter().enumerate() {
+        match guarded(|| rd.read_deser::<AnyValue>(&mut src)) {
+            Ok(Ok(_)) => {}
+            other => {
+                return Some(Failure::new(
+                    "stream-does-not-roundtrip",
+                    "C18 stream-does-not-roundtrip reader=read_deser".to_string(),
+                    format!("message #{i} of {} read one after the other from one source through read_deser: {:?} (position {} of {})", all.len(), other.map(|r| r.map(|_| "ok").map_err(|e| e.to_string())), src.pos, stream.len()),
+                ));
+            }
+        }
+    }
+    if src.pos != stream.len() {
+        return Some(Failure::new("stream-does-not-roundtrip", "C18 stream-does-not-roundtrip reader=read_deser".to_string(), format!("{} of {} bytes consumed after the last message", src.pos, stream.len())));
+    }
+    None
+}
+
+fn check_stream_specific<T: Corp + From<Value>>(all: &[Sent]) -> Option<Failure> {
+    if all.len() < 2 {
+        return None;
+    }
+    let stream: Vec<u8> = all.iter().flat_map(|s| s.msg.iter().copied()).collect();
+    let rd = SpecificSingleObjectReader::<T>::new().ok()?;
+    let mut src = SimSource::new(&stream, SourcePlan { chunk: Chunk::Const(5), faults: vec![], eintr_every: 0 });
+    for (i, sent) in all.iter().enumerate() {
+        match guarded(|| rd.read(&mut src)) {
+            Ok(Ok(t)) if avro_eq(&t.to_value(), &sent.value) => {}
+            other => {
+                return Some(Failure::new(
+                    "stream-does-not-roundtrip",
+                    "C18 stream-does-not-roundtrip reader=specific.read".to_string(),
+                    format!("message #{i} of {} read one after the other from one source through the typed reader: {:?} (position {} of {})", all.len(), other.map(|r| r.map(|t| format!("{t:?}")).map_err(|e| e.to_string())), src.pos, stream.len()),
+                ));
+            }
+        }
+    }
+    if src.pos != stream.len() {
+        return Some(Failure::new("stream-does-not-roundtrip", "C18 stream-does-not-roundtrip reader=specific.read".to_string(), format!("{} of {} bytes consumed after the last message", src.pos, stream.len())));
+    }
+    None
+}
+
 fn judge_ok_message(
     header: &[u8; 10],
     datum: &[u8],
@@ -304,6 +375,7 @@ fn run_generic(schema_rs: &RS, cap: usize, history: &[GMsg], case: &Case, ctx: &
     };
     let mut prev = "start";
     let mut first_good: Option<Sent> = None;
+    let mut all_good: Vec<Sent> = vec![];
     for (idx, m) in history.iter().enumerate() {
         ctx.eval();
         let (value, plan, kind): (Value, SinkPlan, &'static str) = match m {
@@ -352,6 +424,7 @@ fn run_generic(schema_rs: &RS, cap: usize, history: &[GMsg], case: &Case, ctx: &
                         if let Some(f) = check_roundtrip_generic(&p.schema, &sent, idx) {
                             return Some(f);
                         }
+                        all_good.push(Sent { msg: sent.msg.clone(), value: sent.value.clone() });
                         if first_good.is_none() {
                             first_good = Some(sent);
                         }
@@ -388,6 +461,9 @@ fn run_generic(schema_rs: &RS, cap: usize, history: &[GMsg], case: &Case, ctx: &
                 }
             }
         }
+    }
+    if let Some(f) = check_stream_generic(&p.schema, &all_good) {
+        return Some(f);
     }
     if case.header_damage {
         if let Some(sent) = &first_good {
@@ -509,6 +585,7 @@ fn run_specific_inner<T: Corp + From<Value> + Into<Value>>(method: u8, history: 
     let dw = GenericDatumWriter::builder(&schema).build().expect("datum writer");
     let mut prev = "start";
     let mut first_good: Option<Sent> = None;
+    let mut all_good: Vec<Sent> = vec![];
     let mname = ["write_ref", "write", "write_value"][method as usize % 3];
     for (idx, m) in history.iter().enumerate() {
         ctx.eval();
@@ -549,6 +626,7 @@ fn run_specific_inner<T: Corp + From<Value> + Into<Value>>(method: u8, history: 
                 if let Some(f) = check_roundtrip_specific::<T>(&sent, idx) {
                     return Some(f);
                 }
+                all_good.push(Sent { msg: sent.msg.clone(), value: sent.value.clone() });
                 if first_good.is_none() {
                     first_good = Some(sent);
                 }
@@ -565,6 +643,9 @@ fn run_specific_inner<T: Corp + From<Value> + Into<Value>>(method: u8, history: 
                 prev = "sink-fail";
             }
         }
+    }
+    if let Some(f) = check_stream_generic(&schema, &all_good).or_else(|| check_stream_specific::<T>(&all_good)) {
+        return Some(f);
     }
     if case.header_damage {
         if let Some(sent) = &first_good {
